@@ -337,6 +337,11 @@ class Tr:
                 raise Broken("comma operator")
             if op in ("&&", "||"):
                 return f"({self.expr(a)} {op} {self.expr(b)})"
+            if op in ("==", "!="):
+                na, nb = self.is_null(a), self.is_null(b)
+                if na != nb:
+                    e = self.fv(self.ptr_name(b if na else a) + "_null", "Bool")
+                    return e if op == "==" else f"(!{e})"
             ta, tb, tr = ctype(a), ctype(b), ctype(n)
             ea, eb = self.expr(a), self.expr(b)
             if op in ("<<", ">>"):
@@ -424,6 +429,35 @@ class Tr:
             except Broken:
                 raise Broken(f"sizeof({q})")
         raise Broken(f"expression kind {k}")
+
+    def is_null(self, x):
+        while x.get("kind") in ("ParenExpr", "ImplicitCastExpr", "CStyleCastExpr") and x.get("inner"):
+            if x.get("castKind") == "NullToPointer":
+                return True
+            x = x["inner"][-1]
+        return x.get("kind") in ("CXXNullPtrLiteralExpr", "GNUNullExpr")
+
+    def ptr_name(self, x):
+        """name for a pointer-valued variable / member / argument-less getter call"""
+        while x.get("kind") in ("ParenExpr", "ImplicitCastExpr") and x.get("inner"):
+            x = x["inner"][-1]
+        try:
+            if ctype(x)[0] != "ptr":
+                raise Broken("null compared with a non-pointer")
+        except Broken:
+            raise
+        if x.get("kind") == "DeclRefExpr":
+            return lname(x.get("referencedDecl", {}).get("name", "ptr"))
+        if x.get("kind") == "MemberExpr":
+            return lname(x.get("name", "ptr"))
+        if x.get("kind") == "CXXMemberCallExpr" and len(x.get("inner", [])) == 1:
+            callee = x["inner"][0]
+            pre = ""
+            base = callee.get("inner", [])
+            if base and base[0]["kind"] != "CXXThisExpr":
+                pre = self.obj_name(base[0])
+            return lname((pre + "_" if pre else "") + re.sub(r"^get_", "", callee.get("name", "ptr")))
+        raise Broken("pointer expression compared with null")
 
     def shift_amount(self, b, eb):
         x = b
@@ -652,6 +686,11 @@ def find_function(docs, spec):
         qt = n.get("type", {}).get("qualType", "")
         if "<dependent type>" in json.dumps(n)[:200000] and "targs" not in spec and "<dependent type>" in json.dumps(n):
             continue
+        if "margs" in spec:   # arguments of an instantiated *member* template (e.g. generic_get_symbol<Elf32_Sym>)
+            ma = [re.sub(r"^ELFIO::", "", a.get("type", {}).get("qualType", ""))
+                  for a in n.get("inner", []) if a.get("kind") == "TemplateArgument"]
+            if ma != spec["margs"]:
+                continue
         if "params" in spec:
             ps = [re.sub(r"\b(const|ELFIO::)\b", "", p.get("type", {}).get("qualType", "")).replace("&", "").strip()
                   for p in n.get("inner", []) if p.get("kind") == "ParmVarDecl"]
@@ -689,6 +728,36 @@ def record_matches(doc, fn, record):
 
 
 def select(fn, sel):
+    """`base[/step]*` : base selector as below, then steps `op:OPCODE#k` (k-th BinaryOperator with that
+    opcode inside the current node, pre-order) or `arg:i` (i-th child, casts/parentheses skipped)."""
+    base, *steps = sel.split("/")
+    node = select_base(fn, base)
+    for st in steps:
+        kind, _, arg = st.partition(":")
+        if kind == "op":
+            opc, _, nth = arg.partition("#"); nth = int(nth or 0); i = 0; found = None
+            for n in walk(node):
+                if n.get("kind") == "BinaryOperator" and n.get("opcode") == opc:
+                    if i == nth:
+                        found = n; break
+                    i += 1
+            if found is None:
+                raise Broken(f"sub-selector {st}: operator not found")
+            node = found
+        elif kind == "arg":
+            x = node
+            while x.get("kind") in ("ParenExpr", "ImplicitCastExpr", "CStyleCastExpr") and len(strip_comments(x)) == 1:
+                x = strip_comments(x)[0]
+            ch = strip_comments(x)
+            if int(arg) >= len(ch):
+                raise Broken(f"sub-selector {st}: no such child")
+            node = ch[int(arg)]
+        else:
+            raise Broken(f"sub-selector {st}")
+    return node
+
+
+def select_base(fn, sel):
     body = [c for c in fn["inner"] if c.get("kind") == "CompoundStmt"][0]
     kind, _, arg = sel.partition(":")
     if kind == "function":
